@@ -95,6 +95,8 @@ def decode(data: bytes) -> dict:
             elif d.p(0.5):  # opt / optpos
                 vals[pname] = gen_value(d, cmd, pname)
         it = {"t": "cmd", "cmd": cmd, "vals": vals, "short": d.p(0.4)}
+        if d.p(0.15):
+            it["intform"] = d.i(1, 4)
         r3 = d.i(0, 9)
         if r3 == 0:
             it["abbr"] = True
@@ -103,6 +105,14 @@ def decode(data: bytes) -> dict:
         case["items"].append(it)
     case["log_debug"] = d.p(0.12)
     return case
+
+
+def intform(x: int, item: dict) -> str:
+    """One of the spellings int() accepts for the number: 3, 03, +3, 003, 0_3 (a task id typed with leading zeros is the same id)."""
+    f = item.get("intform", 0)
+    if x < 0 or not f:
+        return str(x)
+    return [str(x), "0" + str(x), "+" + str(x), "00" + str(x), "0_" + str(x)][f % 5]
 
 
 def render(item: dict, table: dict) -> str:
@@ -115,7 +125,9 @@ def render(item: dict, table: dict) -> str:
             continue
         typ, v = item["vals"][pname]
         if typ in ("ints", "strs"):
-            texts = [str(x) for x in v]
+            texts = [intform(x, item) if typ == "ints" else str(x) for x in v]
+        elif typ == "int":
+            texts = [intform(v, item)]
         elif typ == "lit":
             texts = [lit(v)]
         elif typ == "flag":
